@@ -651,6 +651,148 @@ func stalledPeerServeCancel(id string, seed uint64) runner.Result {
 	return res
 }
 
+// closeWithQueuedOps: one operation of the stream sits inside the transport (its write is stalled: a
+// peer that has stopped reading) and a second operation of the same stream is queued behind it inside
+// the library; then the connection is closed (client) or Serve's context is cancelled (server, where the
+// two operations are the handler's). Close / ServeOne must return, the transport is closed exactly
+// once, both operations end with an error, the stream's context ends and nothing stays behind.
+func closeWithQueuedOps(id string, seed uint64) runner.Result {
+	base := census.IDs(census.Snapshot())
+	r := &payload.SplitMix{S: seed}
+	soft := r.Intn(2) == 0
+	opts := drpcmanager.Options{SoftCancel: soft}
+	side := payload.Pick(r, []string{"client", "server"})
+	second := payload.Pick(r, []string{"CloseSend", "Close", "MsgSend", "RawFlush", "CloseSend+MsgRecv"})
+	var mu sync.Mutex
+	var ops []*rig.Op
+	var sctx context.Context
+	// drive runs the two operations on st; the first one is known to be inside the transport before the
+	// second is issued
+	drive := func(st drpc.Stream, stall func()) {
+		mu.Lock()
+		sctx = st.Context()
+		mu.Unlock()
+		stall()
+		a := rig.Go("first-send", func() (interface{}, error) {
+			m := payload.Make(1, 0, 0, 1, 70000)
+			return nil, st.MsgSend(&m, payload.Enc{})
+		})
+		census.Quiesce(rig.Watchdog)
+		var more []*rig.Op
+		for _, what := range strings.Split(second, "+") {
+			what := what
+			more = append(more, rig.Go(what, func() (interface{}, error) {
+				switch what {
+				case "CloseSend":
+					return nil, st.CloseSend()
+				case "Close":
+					return nil, st.Close()
+				case "MsgSend":
+					m := payload.Make(1, 0, 0, 2, 10)
+					return nil, st.MsgSend(&m, payload.Enc{})
+				case "RawFlush":
+					return nil, st.(interface{ RawFlush() error }).RawFlush()
+				}
+				var m []byte
+				return nil, st.MsgRecv(&m, payload.Enc{})
+			}))
+			census.Quiesce(rig.Watchdog)
+		}
+		mu.Lock()
+		ops = append(append(ops, a), more...)
+		mu.Unlock()
+	}
+	started := make(chan struct{})
+	var rg *rig.Rig
+	handler := rig.HandlerFunc(func(stream drpc.Stream, rpc string) error {
+		var m []byte
+		if err := stream.MsgRecv(&m, payload.Enc{}); err != nil {
+			return err
+		}
+		if side == "server" {
+			drive(stream, func() { rg.Pair.B.StallWrites(true) })
+			close(started)
+			<-stream.Context().Done()
+			return nil
+		}
+		for stream.MsgRecv(&m, payload.Enc{}) == nil {
+		}
+		return nil
+	})
+	rg = rig.New(rig.Config{Net: simnet.Opts{Cap: -1}, Client: opts, Server: opts}, handler)
+	st, err := rg.Conn.NewStream(context.Background(), "/x", payload.Enc{})
+	if err != nil {
+		rg.Teardown()
+		return runner.Inconcl(id, "NewStream failed")
+	}
+	first := payload.Make(1, 0, 0, 0, 10)
+	st.MsgSend(&first, payload.Enc{})
+	if side == "client" {
+		census.Quiesce(rig.Watchdog)
+		drive(st, func() { rg.Pair.A.StallWrites(true) })
+	} else if s, _ := census.QuiesceOr(started, rig.Watchdog); s != "ready" {
+		rg.Teardown()
+		return runner.Inconcl(id, "the handler did not get its operations going")
+	}
+	census.Quiesce(rig.Watchdog)
+	desc := fmt.Sprintf("%s side: a send inside the transport (write stalled), %s queued behind it in the library, soft=%v, then ", side, second, soft)
+	var closer *rig.Op
+	end := rg.Pair.A
+	if side == "client" {
+		desc += "Conn.Close"
+		closer = rig.Go("conn.Close", func() (interface{}, error) { return nil, rg.Conn.Close() })
+	} else {
+		desc += "Serve's context is cancelled"
+		end = rg.Pair.B
+		rg.StopServe()
+		closer = rg.ServeOp
+	}
+	stq, snap := census.QuiesceOr(nil, rig.Watchdog)
+	if stq == "watchdog" {
+		rg.Teardown()
+		return runner.Inconcl(id, "watchdog: "+desc)
+	}
+	var fails []string
+	if !closer.Returned() {
+		fails = append(fails, "the closing call has not returned at quiescence\n"+census.Dump(census.InDRPC(snap)))
+	}
+	mu.Lock()
+	for _, op := range ops {
+		if !op.Returned() && len(fails) == 0 {
+			fails = append(fails, "operation "+op.Name+" is still blocked after the close\n"+census.Dump(census.InDRPC(snap)))
+		}
+	}
+	if len(fails) == 0 && ops[0].Err == nil {
+		fails = append(fails, "the send that was inside the transport when the connection was closed returned nil")
+	}
+	if len(fails) == 0 && !rig.IsClosed(sctx.Done()) {
+		fails = append(fails, "the stream's context has not ended")
+	}
+	mu.Unlock()
+	if n := end.CloseCount(); n != 1 && len(fails) == 0 {
+		fails = append(fails, fmt.Sprintf("the %s transport was closed %d times", side, n))
+	}
+	end.StallWrites(false)
+	rg.StopServe()
+	cl := rig.Go("conn.Close#2", func() (interface{}, error) { return nil, rg.Conn.Close() })
+	if !cl.Wait() && len(fails) == 0 {
+		fails = append(fails, "Conn.Close on the client has not returned")
+	}
+	rg.Pair.A.Close()
+	rg.Pair.B.Close()
+	_, snap = census.Quiesce(rig.Watchdog)
+	if left := census.NewSince(census.InDRPC(snap), base); len(left) > 0 && len(fails) == 0 {
+		fails = append(fails, "library goroutines left behind:\n"+census.Dump(left))
+	}
+	rg.Teardown()
+	if len(fails) > 0 {
+		return runner.Violation(id, fmt.Sprintf("close:queued-ops side=%s second=%s soft=%v:%s", side, second, soft, keyOf(fails[0])), desc+"\n"+strings.Join(fails, "\n"))
+	}
+	res := runner.Hold(id, desc, true)
+	res.Events = int64(2 + strings.Count(second, "+"))
+	return res
+}
+
 // earlyData: the peer has already sent packets for the stream id the client is about to use when
 // the client creates the stream; the connection is closed while the new stream has been published to
 // the reader but not yet handed to the stream manager.
@@ -770,6 +912,11 @@ func gen(tier string, seed uint64) []runner.Scenario {
 		i := i
 		id := fmt.Sprintf("stalled-peer-serve-cancel/%d", i)
 		out = append(out, runner.Scenario{ID: id, Run: func() runner.Result { return stalledPeerServeCancel(id, payload.Hash(seed, 0xC124, uint64(i))) }})
+	}
+	for i := 0; i < ne; i++ {
+		i := i
+		id := fmt.Sprintf("close-with-queued-ops/%d", i)
+		out = append(out, runner.Scenario{ID: id, Run: func() runner.Result { return closeWithQueuedOps(id, payload.Hash(seed, 0xC125, uint64(i))) }})
 	}
 	for i := 0; i < ne; i++ {
 		i := i
